@@ -1,4 +1,5 @@
 import OcVerif.Proofs.Pool
+import OcVerif.Model.MultiPool
 /-!
 # C11 — pool worker count is exact and bounded
 
@@ -86,5 +87,96 @@ example : ((pass (submit (submit { maxSize := 1 } [.ret 5] 0).1 [.panic] 0).1).m
 
 -- the last queued task cancels its own coroutine: the count still returns to 0 (seeded change C11)
 example : ((pass (submit (submit { maxSize := 2 } [.ret 5] 0).1 [.cancelSelf] 0).1).map (fun p => (p.running, p.started))) = some (0, [0, 1]) := by decide
+
+/-! ## several pools of one process: a worker may finish under another pool than its creator -/
+section MultiPool
+open Oc.MPool
+
+theorem live_append_new (ws : List W) (p q : Nat) :
+    live (ws ++ [{ home := p }]) q = live ws q + (if q = p then 1 else 0) := by
+  unfold live
+  rw [List.countP_append]
+  by_cases h : q = p
+  · subst h; simp
+  · have : (p == q) = false := by simp; exact fun e => h e.symm
+    simp [List.countP_cons, this, h]
+
+theorem live_set_dead (ws : List W) (w : Nat) (x : W) (hx : ws[w]? = some x) (ha : x.alive = true) (q : Nat) :
+    live (ws.set w { x with alive := false }) q = live ws q - (if q = x.home then 1 else 0) := by
+  unfold live
+  induction ws generalizing w with
+  | nil => simp at hx
+  | cons y ys ih =>
+    cases w with
+    | zero =>
+      simp at hx; subst hx
+      by_cases h : q = y.home
+      · subst h; simp [List.countP_cons, ha]
+      · have : (y.home == q) = false := by simp; exact fun e => h e.symm
+        simp [List.countP_cons, this, h]
+    | succ w =>
+      simp at hx
+      have := ih w hx
+      simp only [List.set_cons_succ, List.countP_cons]
+      rw [this]
+      by_cases h : q = x.home
+      · simp only [h, if_true]
+        have hpos : 0 < List.countP (fun z => z.alive && z.home == x.home) ys := by
+          apply List.countP_pos_iff.mpr
+          exact ⟨x, List.mem_of_getElem? hx, by simp [ha]⟩
+        subst h
+        split <;> omega
+      · simp [h]
+
+/-- the invariant: every pool's reported running size is the number of live workers it created -/
+def InvM (s : St) : Prop := ∀ p, s.running p = live s.ws p
+
+theorem invM_step (s : St) (e : Ev) (h : InvM s) : InvM (step s e) := by
+  intro q
+  cases e with
+  | create p =>
+    simp only [step, bump]
+    rw [live_append_new, h q]
+    by_cases hq : q = p <;> simp [hq]
+  | finish w on =>
+    simp only [step]
+    split
+    · rename_i x hx
+      split
+      · rename_i ha
+        simp only [drop]
+        rw [live_set_dead s.ws w x hx ha q, h q]
+        by_cases hq : q = x.home <;> simp [hq]
+      · exact h q
+    · exact h q
+
+/-- For every history of worker creations and exits, wherever each worker happens to run when it
+exits, every pool's running size equals the number of its own live workers. -/
+theorem C11_multi_pool_exact (evs : List Ev) : InvM (run evs) := by
+  unfold run
+  have : ∀ (s : St), InvM s → InvM (evs.foldl step s) := by
+    induction evs with
+    | nil => intro s h; exact h
+    | cons e es ih => intro s h; exact ih _ (invM_step s e h)
+  exact this {} (fun p => by simp [live])
+
+/-- …so once every worker has left, every pool reports zero (and a stop has nothing to wait for). -/
+theorem C11_multi_pool_quiescent (evs : List Ev) (hall : ∀ x ∈ (run evs).ws, x.alive = false) (p : Nat) :
+    (run evs).running p = 0 := by
+  rw [C11_multi_pool_exact evs p]
+  unfold live
+  apply List.countP_eq_zero.mpr
+  intro x hx
+  simp [hall x hx]
+
+/-- The code before the repair decremented the counter of the pool the worker happened to finish
+under: pool 0 creates a worker, pool 1 steals and finishes it — pool 0 reports one worker for ever
+although none is alive (and an idle worker that later runs under pool 1, which reports 0 with a
+live worker, never leaves its loop). -/
+theorem C11_old_foreign_exit_counterexample :
+    (runOld [.create 0, .finish 0 1]).running 0 = 1 ∧ live (runOld [.create 0, .finish 0 1]).ws 0 = 0 ∧
+    (run [.create 0, .finish 0 1]).running 0 = 0 := by decide
+
+end MultiPool
 
 end Oc.Props.C11
